@@ -1,0 +1,101 @@
+//go:build verif
+
+// Contracts for package json, checked by /verif (govc). Comment-only.
+
+package json
+
+//@ -- jtab(jt): the core table the renderer is wrapped around
+//@ spec jtab(jt *JSONTable) *tabular.ATable = jt.Table.(*tabular.ATable)
+
+//@ -- typestate of the JSON array grammar (C07): 0 nothing written, 1 array opened, 2 after an object,
+//@ -- 3 after a comma (an object must follow), 4 array closed
+//@ ghost var jstate Int
+//@ -- number of objects emitted
+//@ ghost var jobjs Int
+
+//@ pred jsCellsFresh(cells []tabular.Cell) = forall i int :: {cells[i].mustCalc} 0 <= i && i < len(cells) ==> !cells[i].mustCalc
+
+//@ -- ownSkip(t, i): the skipable setting of 1-based column i+1 (nil when unset)
+//@ spec skipOf(t *tabular.ATable, c int) Iface = lookup(heap[tabular.valueProperty.chain], heap[tabular.valueProperty.key], heap[tabular.valueProperty.val], t.columns[c].properties, mkiface(type[*properties.propertyKey], box(properties.Skipable)))
+
+//@ func (*JSONTable).emitRowAsJSONObject
+//@   tags C07,C15,C09
+//@   requires jt != nil && w != nil && jsCellsFresh(cells) && len(skipableColumns) >= len(keys)
+//@   requires [writer-ok] !Wfailed
+//@   assigns ghost Wn, ghost Wchunk, ghost Wfailed, heap[[]byte]
+//@   ensures [more-cells-than-keys-refused] len(keys) < len(cells) ==> result != nil && Wn == old(Wn) @C07
+//@   ensures [failing-writer-surfaces] Wfailed ==> result != nil @C15
+//@   ensures [object-closed] result == nil ==> !Wfailed && Wn > old(Wn) && (Wchunk[Wn - 1] === "}" || Wchunk[Wn - 1] === "{}") @C07
+//@   ensures [earlier-output-kept] forall k int :: {Wchunk[k]} k < old(Wn) ==> Wchunk[k] === old(Wchunk)[k]
+//@   loop#1 invariant 0 <= i && i <= max && max == len(cells) && len(keys) >= max && !Wfailed && Wn >= old(Wn) && (separator == "{" || separator == ", ") && (separator == "{" ==> Wn == old(Wn))
+//@   loop#1 invariant forall k int :: {Wchunk[k]} k < old(Wn) ==> Wchunk[k] === old(Wchunk)[k]
+//@   loop#1 decreases len(cells) - i
+
+//@ func (*JSONTable).RenderTo
+//@   tags C07,C15,C09,C14
+//@   requires jt != nil && w != nil && tbl(jt.Table) && jtab(jt).nColumns <= 1099511627774
+//@   requires [writer-ok] !Wfailed
+//@   requires [nothing-written-yet] jstate == 0
+//@   ensures [table-still-wellformed] tbl(jt.Table) @C09,C14
+//@   ensures [no-columns-refused] jtab(jt).nColumns < 1 ==> result != nil && Wn == old(Wn) @C07
+//@   ensures [no-headers-refused] jtab(jt).headerRow == nil ==> result != nil && Wn == old(Wn) @C07
+//@   ensures [too-few-headers-refused] jtab(jt).headerRow != nil && len(jtab(jt).headerRow.cells) < jtab(jt).nColumns ==> result != nil && Wn == old(Wn) @C07
+//@   ensures [empty-header-refused] (jtab(jt).headerRow != nil && exists k int :: 0 <= k && k < jtab(jt).nColumns && k < len(jtab(jt).headerRow.cells) && jtab(jt).headerRow.cells[k].str == "") ==> result != nil @C07
+//@   ensures [failing-writer-surfaces] Wfailed ==> result != nil @C15
+//@   ensures [array-closed-one-object-per-row] result == nil ==> jstate == 4 && jobjs == old(jobjs) + nonsep(heap[[]*tabular.Row], heap[tabular.Row.isSeparator], jtab(jt).rows, len(jtab(jt).rows)) @C07
+//@   call WriteString#1 before assert [open-first] jstate == 0 @C07
+//@   call WriteString#1 after ghost jstate = 1
+//@   call WriteString#2 before assert [comma-only-after-object] jstate == 2 @C07
+//@   call WriteString#2 after ghost jstate = 3
+//@   call WriteString#3 before assert [whitespace-inside-array] jstate >= 1 && jstate <= 3 @C07
+//@   call emitRowAsJSONObject before assert [object-only-at-start-or-after-comma] jstate == 1 || jstate == 3 @C07
+//@   call emitRowAsJSONObject after ghost jstate = (res0 == nil ? 2 : jstate)
+//@   call emitRowAsJSONObject after ghost jobjs = (res0 == nil ? jobjs + 1 : jobjs)
+//@   call WriteString#4 before assert [no-comma-pending-at-close] jstate == 1 || jstate == 2 @C07
+//@   call WriteString#4 after ghost jstate = 4
+//@   call InvokeRenderCallbacks after label AfterCallbacks
+//@   loop#1 invariant 0 <= i && i <= columnCount && columnCount == jtab(jt).nColumns && columnCount >= 1 && tbl(jt.Table) && !Wfailed && Wn == old(Wn) && jstate == 0 && jobjs == old(jobjs) && len(skipableColumns) == columnCount && len(keys) == columnCount && jtab(jt).headerRow != nil && headers === jtab(jt).headerRow.cells && len(headers) >= columnCount && seen != nil
+//@   loop#1 invariant forall k int :: {headers[k].str} 0 <= k && k < i ==> headers[k].str != ""
+//@   loop#1 invariant [skip-is-own-else-default] forall k int :: {skipableColumns[k]} 0 <= k && k < i ==> skipableColumns[k] == (skipOf(jtab(jt), k + 1) != nil ? skipOf(jtab(jt), k + 1).(bool) : defaultSkipable) @C07
+//@   loop#1 decreases columnCount - i
+//@   loop#2 invariant -1 <= rangeindex && rangeindex < len(jtab(jt).rows) && -1 <= lastObject && lastObject <= rangeindex && tbl(jt.Table) && !Wfailed && jstate == 1 && jobjs == old(jobjs) && len(skipableColumns) == columnCount && len(keys) == columnCount && columnCount == jtab(jt).nColumns
+//@   loop#2 invariant lastObject >= 0 ==> !jtab(jt).rows[lastObject].isSeparator
+//@   loop#2 invariant forall k int :: {jtab(jt).rows[k]} lastObject < k && k <= rangeindex ==> jtab(jt).rows[k].isSeparator
+//@   loop#2 decreases len(jtab(jt).rows) - rangeindex
+//@   loop#3 invariant -1 <= rangeindex && rangeindex < len(jtab(jt).rows) && tbl(jt.Table) && !Wfailed && len(skipableColumns) == columnCount && len(keys) == columnCount && columnCount == jtab(jt).nColumns && -1 <= lastObject && lastObject < len(jtab(jt).rows)
+//@   loop#3 invariant (lastObject >= 0 ==> !jtab(jt).rows[lastObject].isSeparator) && (forall k int :: {jtab(jt).rows[k]} lastObject < k && k < len(jtab(jt).rows) ==> jtab(jt).rows[k].isSeparator)
+//@   loop#3 invariant jobjs == old(jobjs) + nonsep(heap[[]*tabular.Row], heap[tabular.Row.isSeparator], jtab(jt).rows, rangeindex + 1)
+//@   loop#3 invariant 1 <= jstate && jstate <= 3 && jobjs >= old(jobjs) && (jstate == 1 <==> jobjs == old(jobjs)) && (needComma ==> jstate == 2 && rangeindex < lastObject) && (jstate == 3 ==> rangeindex < lastObject) && (!needComma && jstate == 2 ==> rangeindex >= lastObject)
+//@   loop#3 decreases len(jtab(jt).rows) - rangeindex
+//@   loop#3 use nonsep_bounds(heap[[]*tabular.Row], heap[tabular.Row.isSeparator], jtab(jt).rows, rangeindex + 1)
+//@   loop#3 unfold nonsep(heap[[]*tabular.Row], heap[tabular.Row.isSeparator], jtab(jt).rows, rangeindex + 2)
+//@   entry unfold nonsep(heap[[]*tabular.Row], heap[tabular.Row.isSeparator], jtab(jt).rows, 0)
+
+//@ func Wrap
+//@   tags C07,C10,C09
+//@   assigns new(JSONTable)
+//@   ensures result != nil && fresh(result) && result.Table === t
+
+//@ func New
+//@   tags C10,C09
+//@   assigns new(JSONTable), new(tabular.ATable), new(tabular.ErrorContainer), new(tabular.column)
+//@   ensures result != nil && fresh(result) && tbl(result.Table) && len(jtab(result).rows) == 0 && jtab(result).nColumns == 0
+
+//@ func (*JSONTable).Render
+//@   tags C07,C09,C10
+//@   requires jt != nil && tbl(jt.Table) && jtab(jt).nColumns <= 1099511627774
+//@   ensures [error-means-no-text] result1 != nil ==> result0 == "" @C09,C07
+//@   ensures [table-still-wellformed] tbl(jt.Table)
+//@   call RenderTo before ghost Wfailed = false
+//@   call RenderTo before ghost jstate = 0
+
+//@ func Render
+//@   tags C07,C09,C10
+//@   requires tbl(t) && t.(*tabular.ATable).nColumns <= 1099511627774
+//@   ensures [error-means-no-text] result1 != nil ==> result0 == "" @C09,C07
+
+//@ func RenderTo
+//@   tags C09,C10,C15
+//@   requires w != nil && tbl(t) && t.(*tabular.ATable).nColumns <= 1099511627774
+//@   requires [writer-ok] !Wfailed && jstate == 0
+//@   ensures [failing-writer-surfaces] Wfailed ==> result != nil @C15
